@@ -6,6 +6,8 @@ Driver for C19. Case fields (after the id):
   allowOrigins(hexlist) nextSet(0/1) funcSet(0/1) funcAllows(hexlist) funcPanics(hexlist)
   allowMethods allowHeaders expose(hexlists) maxAge(int) credentials(0/1) privateNetwork(0/1)
   method origin acrMethod acrHeaders acrPrivate (hex) skip(0/1) priorVary(hex) afterVary(hexlist)
+  history (`-` or `;`-joined `method:origin:acrm:acrh:acrpn:skip:priorVary:afterVary(+-joined)`, hex):
+    the requests served before this one on the same app and the same reused request context
   urlFacts (`hex(arg)=err|scheme|host|path|rawquery|fragment` joined by `;`, from the real net/url)
   implObs
 -/
@@ -60,9 +62,21 @@ def normalizeArgs : List Bytes → List Bytes
       | some i => trim (o.take (i + 3) ++ o.drop (i + 4)) 32 :: normalizeArgs rest
       | none => trim o 32 :: normalizeArgs rest
 
+/-- one request of the history field -/
+def parseHistReq (s : String) : Option Request :=
+  match s.splitOn ":" with
+  | [me, og, acrm, acrh, acrpn, sk, pv, av] => do
+    let av ← if av == "-" then some [] else (av.splitOn "+").mapM fromHex
+    some { method := ← fromHex me, origin := ← fromHex og, acrMethod := ← fromHex acrm, acrHeaders := ← fromHex acrh,
+           acrPrivate := ← fromHex acrpn, skip := sk == "1", priorVary := ← fromHex pv, afterVary := av }
+  | _ => none
+
+def parseHistory (s : String) : Option (List Request) :=
+  if s == "-" then some [] else (s.splitOn ";").mapM parseHistReq
+
 def handleCase (f : List String) : Except String Verdict := do
   match f with
-  | [id, ao, ns, fs, fa, fp, am, ah, ex, ma, cr, pn, me, og, acrm, acrh, acrpn, sk, pv, av, uf, impl] =>
+  | [id, ao, ns, fs, fa, fp, am, ah, ex, ma, cr, pn, me, og, acrm, acrh, acrpn, sk, pv, av, hi, uf, impl] =>
     let some ao := hexList ao | throw "allowOrigins"
     let some fa := hexList fa | throw "funcAllows"
     let some fp := hexList fp | throw "funcPanics"
@@ -81,6 +95,8 @@ def handleCase (f : List String) : Except String Verdict := do
     let some acrpn := fromHex acrpn | throw "acrpn"
     let some pv := fromHex pv | throw "priorVary"
     let some av := hexList av | throw "afterVary"
+    -- domain guard: a mangled history (shrinker) is not judged
+    let some pre := parseHistory hi | throw "outside-domain: history"
     let some facts := parseFacts uf | throw "urlFacts"
     -- domain guard: `strings.ToLower` is modelled on ASCII text only
     if !isASCII og then throw "outside-domain: non-ASCII Origin"
@@ -121,7 +137,7 @@ def handleCase (f : List String) : Except String Verdict := do
             | none => some "unparsable-observation"
       pure { id := id, modelObs := obs "panic", implObs := impl, spec := spec, tags := ["panic"] }
     | some bt =>
-      let r := handle bt q
+      let r := replyAfter bt pre q
       let spec : Option String :=
         if impl == "panic" then none
         else match parseResp impl with
@@ -137,9 +153,10 @@ def handleCase (f : List String) : Except String Verdict := do
                  else if permitted bt o then "allowed-func" else "denied"
       let vt := (if pv = [] then [] else if varyWF pv then ["vary-prior"] else ["vary-prior-malformed"]) ++
                 (if av = [] then [] else ["vary-after"])
-      let ct := (if bt.subs.isEmpty then [] else ["cfg-wildcard"]) ++ (if ns == "1" then [] else ["next-nil"])
+      let ct := (if bt.subs.isEmpty then [] else ["cfg-wildcard"]) ++ (if ns == "1" then [] else ["next-nil"]) ++
+                (if pre.isEmpty then [] else ["history"])
       let nt := if o ≠ [] && !bt.allowAll && !sk then ["nt"] else []
       pure { id := id, modelObs := obs (renderResp r), implObs := impl, spec := spec, tags := [branch, dec] ++ vt ++ ct ++ nt }
-  | _ => throw s!"expected 22 fields, got {f.length}"
+  | _ => throw s!"expected 23 fields, got {f.length}"
 
 def main : IO Unit := run handleCase
